@@ -584,8 +584,299 @@ class AssertAsyncRequests(_Sched):
 
 
 try:
-    from pyvc.values import Opaque
+    from pyvc.values import Opaque, SymObj
 except Exception:  # pragma: no cover
     Opaque = None
 
-CONTRACTS = [AdvanceProgress(), ScheduleStep(), NotifyDependencies(), GetMaxAdvance(), AssertAsyncRequests()]
+
+class RtCheck(_Sched):
+    """rt_check(rt_factor, rt_start, rt_strict, sim): in real-time mode, with delta = seconds passed - rt_factor *
+    time of the last step: RuntimeError IFF rt_strict and delta > 0; a warning IFF not rt_strict and delta > 0;
+    nothing is written (rt_strict changes nothing else)"""
+    target = "mosaik.scheduler.rt_check"
+    property_ids = ["C17"]
+    configure_small = None
+    configure_small2 = None
+    variants = [{"rt": False}, {"rt": True}]
+
+    def make_args(self, mk, rt=True):
+        M = mk.s.sched
+        self._rt = z3.Real("rt_factor_arg") if rt else None
+        self._start = z3.Real("rt_start_arg")
+        self._strict = mk.bool("rt_strict")
+        return {"rt_factor": self._rt, "rt_start": self._start, "rt_strict": self._strict, "sim": mk.const("sim", M.alg.Sim)}
+
+    def requires(self, A):
+        return And(static_ok(self._M), typing(self._M, H(self._h0)), *([self._rt > 0] if self._rt is not None else []))
+
+    def _delta(self, A):
+        now = self._p.ghost.get("clock")
+        a = self._M.alg
+        return None if now is None else (now - self._start) - self._rt * z3.ToReal(a.time(self._h0["LS"][A.sim]))
+
+    def raise_allowed(self, A, e):
+        if e.cls != "RuntimeError" or self._rt is None:
+            return None
+        return And(self._strict, self._delta(A) > 0)
+
+    def split_post(self, A, result):
+        warned = self._p.ghost.get("logged", []).count("warning")
+        out = {"frame": frame(self._M, self._h0, self.cur(), {})}
+        if self._rt is None:
+            out["silent_outside_real_time"] = warned == 0
+            return out
+        d = self._delta(A)
+        out["no_error_unless_strict_and_behind"] = Not(And(self._strict, d > 0))
+        out["warning_iff_behind_and_not_strict"] = (And(Not(self._strict), d > 0) if warned else Not(And(Not(self._strict), d > 0)))
+        out["at_most_one_warning"] = warned <= 1
+        return out
+
+    def ensures(self, A, result):
+        return And(*self.split_post(A, result).values())
+
+
+def _rt_native_world(depth, rt_factor, until=5):
+    import mosaik
+    from mosaik.simmanager import SimRunner
+    from contracts.scheduler_native import _StubProxy
+    from tqdm import tqdm
+    w = mosaik.World({}, skip_greetings=True)
+    w.until, w.rt_factor = until, rt_factor
+    s = SimRunner("S-0", _StubProxy("hybrid"), depth=depth)
+    s.tqdm = tqdm(disable=True)
+    w.sims["S-0"] = s
+    return w, s
+
+
+def _rtcheck_search(self, budget):
+    for rt in (None, 0.5):
+        for strict in (False, True):
+            for passed, last in ((1.0, 2), (1.0, 1), (1.5, 2), (0.0, 0), (0.25, 0)):
+                yield {"rt_factor": rt, "rt_strict": strict, "passed": passed, "last_step": last}
+
+
+def _rtcheck_call(self, m):
+    if "passed" not in m:
+        return True, "symbolic counter-models of rt_check are not replayed (the native search is)"
+    from mosaik import scheduler
+    from mosaik.tiered_time import TieredTime
+    from loguru import logger
+    w, s = _rt_native_world(1, m["rt_factor"])
+    msgs = []
+    hid = logger.add(lambda x: msgs.append(str(x)), level="WARNING")
+    real = scheduler.perf_counter
+    try:
+        s.last_step = TieredTime(m["last_step"])
+        scheduler.perf_counter = lambda: 100.0 + m["passed"]
+        try:
+            scheduler.rt_check(m["rt_factor"], 100.0, m["rt_strict"], s)
+            raised = False
+        except RuntimeError:
+            raised = True
+    finally:
+        scheduler.perf_counter = real
+        logger.remove(hid)
+        w.loop.close()
+    behind = bool(m["rt_factor"]) and (m["passed"] - m["rt_factor"] * m["last_step"]) > 0
+    exp_raise, exp_warn = behind and m["rt_strict"], behind and not m["rt_strict"]
+    ok = raised == exp_raise and (len(msgs) == 1) == exp_warn and len(msgs) <= 1
+    return ok, (f"rt_check(rt_factor={m['rt_factor']}, strict={m['rt_strict']}) {m['passed']} s after the start, last step "
+                f"{m['last_step']}: raised={raised} (expected {exp_raise}), warnings={len(msgs)} (expected {int(exp_warn)})")
+
+
+RtCheck.native_search = _rtcheck_search
+RtCheck.native_call = _rtcheck_call
+
+
+class SetEvent(_Sched):
+    """MosaikRemote.set_event(t): SimulationError IFF not in real-time mode; for t < until the step (t, 0, .., 0)
+    of the calling simulator is scheduled (well-typed for a simulator inside a group as well); otherwise a
+    warning and no effect"""
+    target = "mosaik.simmanager.MosaikRemote.set_event"
+    property_ids = ["C17"]
+    configure = "use_schedule_step"
+    configure_small = None
+    configure_small2 = None
+
+    def make_args(self, mk):
+        M = mk.s.sched
+        self._sid = mk.const("sid", M.alg.Str)
+        self._t = mk.int("event_time")
+        return {"self": mk.obj("mosaik.simmanager.MosaikRemote", world=M.world, sid=self._sid), "event_time": self._t}
+
+    def _sim(self):
+        M = self._M
+        return z3.Function("sim_with_id", M.alg.Str, M.alg.Sim)(self._sid)
+
+    def _x(self):
+        M = self._M
+        a = M.alg
+        return a.plus(a.mkT1(self._t), M.fwt(self._sim()))
+
+    def requires(self, A):
+        M = self._M
+        a, h, sim = M.alg, H(self._h0), self._sim()
+        x = self._x()
+        # compliance of the external event: not in the simulator's past, not before a descendant's progress
+        return And(static_ok(M), Inv(M, self._h0), self._t >= 0, a.le(h.P[sim], x),
+                   a.forall_sims(lambda s: Implies(M.TAd(s, sim), a.le(h.P[s], a.plus(x, M.TAv(s, sim))))),
+                   Implies(h.BGd[sim], a.lt(h.BGv[sim], x)))
+
+    def raise_allowed(self, A, e):
+        if e.cls != "SimulationError":
+            return None
+        return And(Not(And(self._M.rt_d, self._M.rt_v != 0)), _Sched_names_sid(e))
+
+    def split_post(self, A, result):
+        M, h0, h1 = self._M, self._h0, self.cur()
+        sim, x = self._sim(), self._x()
+        new_ns, new_newer = ScheduleStep.effect(M, h0, sim, x)
+        warned = self._p.ghost.get("logged", []).count("warning")
+        out = {"only_in_real_time_mode": And(M.rt_d, M.rt_v != 0),
+               "frame": frame(M, h0, h1, {"NS": None, "newer": None})}
+        if warned:
+            out["ignored_iff_at_or_after_until"] = And(self._t >= M.until, h1["NS"] == h0["NS"], warned == 1)
+        else:
+            out["scheduled_iff_before_until"] = And(self._t < M.until, h1["NS"] == new_ns)
+        return out
+
+    def ensures(self, A, result):
+        return And(*self.split_post(A, result).values())
+
+
+def _Sched_names_sid(e):
+    for a_ in e.args_:
+        for mnt in getattr(a_, "mentions", ()):
+            if "sid" in mnt:
+                return True
+    return False
+
+
+class AdvanceProgressRT(_Sched):
+    """advance_progress in real-time mode: the new progress never exceeds the wall-clock cap
+    ceil(seconds since the simulator started / rt_factor) -- whatever else bounds it (C17 pacing)"""
+    target = "mosaik.scheduler.advance_progress"
+    property_ids = ["C17"]
+    configure_small = None
+    configure_small2 = None
+
+    def make_args(self, mk):
+        M = mk.s.sched
+        return {"sim": mk.const("sim", M.alg.Sim), "world": M.world}
+
+    def requires(self, A):
+        M = self._M
+        return And(static_ok(M), typing(M, H(self._h0)), M.rt_d, M.rt_v > 0)
+
+    # (progress moving backwards is excluded by the real-time invariant of the whole run, which is not
+    #  part of this function-level contract: AssertionError from Progress.set is allowed here)
+    def raise_allowed(self, A, e):
+        return True if (e.cls == "AssertionError" and e.implicit == "cannot progress backwards") else None
+
+    def split_post(self, A, result):
+        M, h0, h1 = self._M, self._h0, self.cur()
+        a = M.alg
+        now = self._p.ghost.get("clock")
+        if now is None:
+            # the path never read the clock: the cap must then hold for whatever the clock shows
+            now = z3.Real("clock!unread")
+        cap = z3.Int("cap")
+        passed = (now - h0["rt_start"][A.sim]) / M.rt_v
+        return {"capped_by_wall_clock": Implies(And(z3.ToReal(cap) >= passed, z3.ToReal(cap) < passed + 1),
+                                                a.time(h1["P"][A.sim]) <= cap),
+                "frame": frame(M, h0, h1, {"P": A.sim})}
+
+    def ensures(self, A, result):
+        return And(*self.split_post(A, result).values())
+
+CONTRACTS = [AdvanceProgress(), ScheduleStep(), NotifyDependencies(), GetMaxAdvance(), AssertAsyncRequests(),
+             RtCheck(), SetEvent(), AdvanceProgressRT()]
+
+
+def _setevent_search(self, budget):
+    for depth in (1, 2, 3):
+        for rt in (None, 0.5):
+            for t in (1, 4, 5, 9):
+                yield {"depth": depth, "rt_factor": rt, "event_time": t}
+
+
+def _setevent_call(self, m):
+    if "depth" not in m:
+        return True, "symbolic counter-models of set_event are not replayed (the native search is)"
+    from mosaik.exceptions import SimulationError
+    from mosaik.simmanager import MosaikRemote
+    from mosaik.tiered_time import TieredTime
+    from loguru import logger
+    w, s = _rt_native_world(m["depth"], m["rt_factor"])
+    msgs = []
+    hid = logger.add(lambda x: msgs.append(str(x)), level="WARNING")
+    try:
+        s.next_steps = [TieredTime(*([2] + [0] * (m["depth"] - 1)))]
+        try:
+            w.loop.run_until_complete(MosaikRemote(w, "S-0").set_event(m["event_time"]))
+            err = None
+        except SimulationError as e:
+            err = e
+        except AssertionError as e:
+            return False, f"set_event({m['event_time']}) for a simulator of depth {m['depth']}: AssertionError({e})"
+        exp_steps = [TieredTime(*([2] + [0] * (m["depth"] - 1)))]
+        if m["rt_factor"] and m["event_time"] < 5:
+            exp_steps.append(TieredTime(*([m["event_time"]] + [0] * (m["depth"] - 1))))
+        ok = (err is not None) == (not m["rt_factor"]) and sorted(s.next_steps) == sorted(exp_steps) \
+            and (len(msgs) == 1) == bool(m["rt_factor"] and m["event_time"] >= 5)
+        return ok, (f"set_event({m['event_time']}), until=5, rt_factor={m['rt_factor']}, depth {m['depth']}: error={err!r}, "
+                    f"next_steps={sorted(s.next_steps)!r} (expected {sorted(exp_steps)!r}), warnings={len(msgs)}")
+    finally:
+        logger.remove(hid)
+        w.loop.close()
+
+
+SetEvent.native_search = _setevent_search
+SetEvent.native_call = _setevent_call
+
+
+def _aprt_search(self, budget):
+    for depth in (1, 2):
+        for passed in (0.0, 0.6, 2.4):
+            for nxt in (None, 1, 4):
+                for anc_next in (None, 4):
+                    yield {"depth": depth, "passed": passed, "next_step": nxt, "ancestor_next_step": anc_next}
+
+
+def _aprt_call(self, m):
+    if "passed" not in m or "depth" not in m:
+        return True, "symbolic counter-models are not replayed (the native search is)"
+    import math
+    from mosaik import scheduler
+    from mosaik.simmanager import SimRunner
+    from mosaik.tiered_time import TieredTime, TieredInterval
+    from contracts.scheduler_native import _StubProxy
+    from tqdm import tqdm
+    w, s = _rt_native_world(m["depth"], 0.5, until=9)
+    real = scheduler.perf_counter
+    try:
+        z = [0] * (m["depth"] - 1)
+        s.rt_start = 100.0
+        s.next_steps = [TieredTime(m["next_step"], *z)] if m["next_step"] is not None else []
+        if m["ancestor_next_step"] is not None:
+            anc = SimRunner("A-0", _StubProxy("hybrid"), depth=m["depth"])
+            anc.tqdm = tqdm(disable=True)
+            anc.next_steps = [TieredTime(m["ancestor_next_step"], *z)]
+            w.sims["A-0"] = anc
+            s.triggering_ancestors[anc] = TieredInterval(*([0] * m["depth"]), cutoff=m["depth"], pre_length=m["depth"])
+        scheduler.perf_counter = lambda: 100.0 + m["passed"]
+        try:
+            scheduler.advance_progress(s, w)
+        except AssertionError as e:
+            return False, f"advance_progress in real-time mode for a simulator of depth {m['depth']}: AssertionError({e})"
+        cap = math.ceil(m["passed"] / 0.5)
+        ok = s.progress.time.time <= cap
+        return ok, (f"advance_progress, rt_factor 0.5, {m['passed']} s after the start (cap {cap}), next step {m['next_step']}, ancestor's "
+                    f"next step {m['ancestor_next_step']}: progress {s.progress.time!r}")
+    finally:
+        scheduler.perf_counter = real
+        w.loop.close()
+
+
+AdvanceProgressRT.native_search = _aprt_search
+AdvanceProgressRT.native_call = _aprt_call
